@@ -250,29 +250,29 @@ func (r *Report) finish(o finishOpts) int {
 		fnKeys = o.w.Files
 	}
 	cov := map[string]interface{}{
-		"obligations":          len(r.Obls) - nKnown,
-		"discharged":           nDis,
-		"violated":             nViol,
-		"undecided":            nUndec,
-		"known_findings":       nKnown,
-		"evaluations":          len(r.Obls),
-		"distinct_nontrivial":  len(distinct),
-		"rule":                 "one obligation per (rule, construct); constructs are symbolic program entities (function, call site, field, table row, CFG path class) found in /repo's current source by the rule's own search; distinct = distinct (rule, construct) pairs",
-		"samples":              samples,
-		"checker_cmd":          o.cmd,
-		"trusted_base":         o.trusted,
-		"explanation":          o.explain,
-		"rules":                r.Rules,
-		"per_rule":             perRule,
-		"instance_floors":      r.floors,
-		"anchors_resolved":     r.Anchors,
-		"files_analysed":       fnKeys,
-		"functions_analysed":   nfn,
-		"notes":                r.Notes,
-		"tables":               r.Tables,
-		"exhaustive":           true,
-		"static_only":          true,
-		"nothing_executed":     "the deciding step type-checks and analyses source; no code of /repo is run",
+		"obligations":         len(r.Obls) - nKnown,
+		"discharged":          nDis,
+		"violated":            nViol,
+		"undecided":           nUndec,
+		"known_findings":      nKnown,
+		"evaluations":         len(r.Obls),
+		"distinct_nontrivial": len(distinct),
+		"rule":                "one obligation per (rule, construct); constructs are symbolic program entities (function, call site, field, table row, CFG path class) found in /repo's current source by the rule's own search; distinct = distinct (rule, construct) pairs",
+		"samples":             samples,
+		"checker_cmd":         o.cmd,
+		"trusted_base":        o.trusted,
+		"explanation":         o.explain,
+		"rules":               r.Rules,
+		"per_rule":            perRule,
+		"instance_floors":     r.floors,
+		"anchors_resolved":    r.Anchors,
+		"files_analysed":      fnKeys,
+		"functions_analysed":  nfn,
+		"notes":               r.Notes,
+		"tables":              r.Tables,
+		"exhaustive":          true,
+		"static_only":         true,
+		"nothing_executed":    "the deciding step type-checks and analyses source; no code of /repo is run",
 	}
 	for k, v := range o.extra {
 		cov[k] = v
